@@ -52,8 +52,6 @@ def gen_case(rng, exact):
     else:
         pool = [Fraction(rng.randint(-3, 3)) for _ in range(3)]
         pos, neg = [rng.choice(pool) for _ in range(npos)], [rng.choice(pool) for _ in range(nneg)]
-    if any(x == 0 for x in pos + neg):
-        exact = False   # sentinels of 0.0 are subnormal: sign * (t_fpr - t_fnr) underflows in binary64, the exact model does not
     return {"pos": [enc(x) for x in pos], "neg": [enc(x) for x in neg], "ep": ep, "en": en, "sc": sc, "ec": ec,
             "exact": exact, "kind": kind, "a": enc(rng.choice([Fraction(1, 2), Fraction(2), Fraction(4)])),
             "b": enc(Fraction(rng.randint(-8, 8), 2))}
